@@ -20,7 +20,11 @@ var c04Cfg = kit.WorldCfg{Stores: []kit.StoreCfg{
 	{Name: "cd", RefTo: "targets", RefWiring: kit.WireConstraintDel},
 	{Name: "ec", RefTo: "targets", RefWiring: kit.WireFkIndexCascade},
 	{Name: "mgr", RefTo: "mgr", RefWiring: kit.WireFkIndexNullable}, // self reference: manager / reports
-}}
+	// references whose target is a child store over targets: only entities with child data there are valid targets
+	{Name: "kn", RefTo: "kt", RefWiring: kit.WireFkIndexNullable},
+	{Name: "kx", RefTo: "kt", RefWiring: kit.WireConstraintNone},
+	{Name: "kd", RefTo: "kt", RefWiring: kit.WireFkIndexCascade},
+}, Children: []kit.ChildCfg{{Name: "kt", Parent: "targets"}}}
 
 // ids mixing plain ones with ids containing quotes, backslashes, filter keywords, control characters
 var c04IDs = []string{"t1", "t2", "t3", "t", "t10", "a", "a b c", `a"b`, `a\b`, `a\\nb`, `x" or true or ref = "`, "true", "null", "and", "not in", "a b", "[1]", "datetime(", "ünï", "l1\nl2", "tab\tx", "ctl\x01x", `"`, `\`}
@@ -41,7 +45,13 @@ func genC04(t *rapid.T) kit.History {
 		refs = append(refs, kit.Sp(id), kit.Sp(id))
 	}
 	refs = append(refs, kit.Sp("missing"), kit.Sp(""))
-	refStores := []string{"an", "bn", "cn", "cd", "ec", "mgr"}
+	// each history concentrates on 2-4 of the referrer stores, so that an entity is usually written several times
+	// (re-parented, patched, deleted) rather than nine stores receiving one operation each
+	allRefStores := []string{"an", "bn", "cn", "cd", "ec", "mgr", "kn", "kx", "kd"}
+	var refStores []string
+	for i, k := 0, rapid.IntRange(2, 4).Draw(t, "nRefStores"); i < k; i++ {
+		refStores = append(refStores, allRefStores[rapid.IntRange(0, len(allRefStores)-1).Draw(t, fmt.Sprintf("refStore%d", i))])
+	}
 	return kit.GenHistory(t, c04Cfg, 20, 3, false, 30, func(t *rapid.T, l string, m *kit.Model) kit.Op {
 		existing := func(store string) []string {
 			var out []string
@@ -56,18 +66,60 @@ func genC04(t *rapid.T) kit.History {
 		x := rapid.IntRange(0, 99).Draw(t, l+"_what")
 		switch {
 		case len(targets) == 0 || x < 12:
-			return kit.Op{Kind: "create", Store: "targets", ID: ids[rapid.IntRange(0, len(ids)-1).Draw(t, l+"_tid")], Spec: &kit.EntSpec{Name: "n"}}
-		case x < 40:
-			// delete a target (referenced or not)
-			return kit.Op{Kind: "delete", Store: "targets", ID: targets[rapid.IntRange(0, len(targets)-1).Draw(t, l+"_tdel")]}
+			// a third of the targets are created through the child store (and are valid targets of kn / kx / kd)
+			store := []string{"targets", "targets", "kt"}[rapid.IntRange(0, 2).Draw(t, l+"_tstore")]
+			return kit.Op{Kind: "create", Store: store, ID: ids[rapid.IntRange(0, len(ids)-1).Draw(t, l+"_tid")], Spec: &kit.EntSpec{Name: "n"}}
+		case x < 30:
+			// delete a target (referenced or not), through the parent store or, when it has child data, through the child store
+			id := targets[rapid.IntRange(0, len(targets)-1).Draw(t, l+"_tdel")]
+			store := "targets"
+			if m.LinkEndExists("kt", id) && rapid.IntRange(0, 2).Draw(t, l+"_viaKid") == 0 {
+				store = "kt"
+			}
+			return kit.Op{Kind: "delete", Store: store, ID: id}
 		}
 		store := refStores[rapid.IntRange(0, len(refStores)-1).Draw(t, l+"_store")]
+		if x < 60 {
+			// re-parent an existing referrer: full update or a patch selecting the reference, to another valid target
+			// (or to null), so that the old target loses and the new one gains a back-reference
+			if have := existing(store); len(have) > 0 {
+				id := have[rapid.IntRange(0, len(have)-1).Draw(t, l+"_rpid")]
+				pool := targets
+				if store == "mgr" {
+					pool = existing("mgr")
+				}
+				var refs []*string
+				for _, tid := range pool {
+					if cur := m.Ents[store][id].Ref; cur == nil || *cur != tid {
+						refs = append(refs, kit.Sp(tid))
+					}
+				}
+				refs = append(refs, nil)
+				spec := &kit.EntSpec{Name: "n", Note: []string{"", "x"}[rapid.IntRange(0, 1).Draw(t, l+"_rpnote")], Ref: refs[rapid.IntRange(0, len(refs)-1).Draw(t, l+"_rpref")]}
+				if rapid.Bool().Draw(t, l+"_rppatch") {
+					fields := []string{kit.FRef}
+					if rapid.Bool().Draw(t, l+"_rpnotef") {
+						fields = append(fields, kit.FNote)
+					}
+					return kit.Op{Kind: "patch", Store: store, ID: id, Spec: spec, Fields: fields}
+				}
+				return kit.Op{Kind: "update", Store: store, ID: id, Spec: spec}
+			}
+		}
 		u := kit.EntUniverse{IDs: ids, Names: []string{"n"}, Refs: refs, Fields: []string{kit.FRef, kit.FNote}, Notes: []string{"", "x"}}
 		op := kit.GenEntOpM(t, l, store, u, m)
 		if op.Spec != nil && rapid.IntRange(0, 9).Draw(t, l+"_goodref") < 7 {
 			pool := targets
 			if store == "mgr" {
 				pool = existing("mgr")
+			}
+			if store == "kn" || store == "kx" || store == "kd" {
+				pool = nil
+				for _, id := range targets {
+					if m.LinkEndExists("kt", id) || rapid.IntRange(0, 5).Draw(t, l+"_plainTarget") == 0 {
+						pool = append(pool, id)
+					}
+				}
 			}
 			if len(pool) > 0 {
 				op.Spec.Ref = kit.Sp(pool[rapid.IntRange(0, len(pool)-1).Draw(t, l+"_refpick")])
@@ -114,7 +166,7 @@ func genC04Full(t *rapid.T) kit.History {
 		if _, ok := m.Ents["targets"][id]; ok {
 			restricted := false
 			for s := range m.Referrers("targets", id) {
-				if s == "an" || s == "bn" || s == "cn" {
+				if s == "an" || s == "bn" || s == "cn" || s == "kn" || s == "kx" {
 					restricted = true
 				}
 			}
@@ -145,7 +197,7 @@ func genC04Full(t *rapid.T) kit.History {
 
 func runC04(h kit.History) kit.Result {
 	res := kit.Result{Sub: len(h.Txs)}
-	var deleteReferenced, reparent, hostileDelete, cascade, restrict bool
+	var deleteReferenced, reparent, hostileDelete, cascade, restrict, childTarget bool
 	st, err := kit.RunHistory(h, func(w *kit.World, m *kit.Model, i int, tx kit.TxSpec, out kit.TxOutcome) error {
 		return nil
 	})
@@ -161,7 +213,11 @@ func runC04(h kit.History) kit.Result {
 					deleteReferenced = true
 					for s := range refs {
 						switch s {
-						case "cd", "ec":
+						case "kn", "kx", "kd":
+							childTarget = true
+						}
+						switch s {
+						case "cd", "ec", "kd":
 							cascade = true
 						default:
 							restrict = true
@@ -172,7 +228,7 @@ func runC04(h kit.History) kit.Result {
 					hostileDelete = true
 				}
 			}
-			if (op.Kind == "update" || op.Kind == "patch") && op.Store != "targets" {
+			if (op.Kind == "update" || op.Kind == "patch") && op.Store != "targets" && op.Store != "kt" {
 				if e, exists := pre.Ents[op.Store][op.ID]; exists && op.Spec.Ref != nil && (e.Ref == nil || *e.Ref != *op.Spec.Ref) {
 					reparent = true
 				}
@@ -189,7 +245,7 @@ func runC04(h kit.History) kit.Result {
 	res.Err = err
 	res.NonTrivial = deleteReferenced || reparent || hostileDelete
 	for name, on := range map[string]bool{"delete-of-referenced-target": deleteReferenced, "re-parenting-update": reparent, "delete-with-hostile-id": hostileDelete,
-		"cascade-wiring-involved": cascade, "restrict-wiring-involved": restrict, "reject-then-commit": st.RejectThenCommit} {
+		"cascade-wiring-involved": cascade, "delete-of-target-referenced-through-child-store": childTarget, "restrict-wiring-involved": restrict, "reject-then-commit": st.RejectThenCommit} {
 		if on {
 			res.Classes = append(res.Classes, name)
 		}
